@@ -496,7 +496,7 @@ def checkLoadTour (P : Problem) (t : Tour) : Option Code :=
 
 /-- `check_vehicle_load` (`check_resource_consumption` is vacuous without shared resources) -/
 def checkLoad (P : Problem) (S : Solution) : List (Option Code) :=
-  [firstErrOf (checkLoadTour P) S.tours]
+  [firstErrOf (checkLoadTour P) S.tours, none]
 
 /-! ## Group 2: relations (relations.rs) -/
 
@@ -1272,6 +1272,8 @@ def tourShapeOk (P : Problem) (t : Tour) : Bool :=
     s0.acts.all (fun a => a.ty != .reload) &&
     rest.all (fun s => (s.acts.drop 1).all (fun a => a.ty != .reload)) &&
     countP (fun a => a.ty == .departure) (tourActs t) == 1 &&
+    -- D11: a reload stop that is the last stop does not start a load interval of its own
+    (match rest.getLast? with | some s => !(isReloadStop s && s.acts.any (fun a => isJobTy a.ty)) | none => true) &&
     (match shiftOf P t with
      | none => false
      | some sh =>
